@@ -139,6 +139,15 @@ constexpr T* construct_at(T* ptr, Args&&... args)
 }
 #endif
 
+// Moves an object to a (possibly overlapping) lower address: the source is destroyed before the target is created.
+template <class T>
+constexpr void relocate_at(T* source, T* target) noexcept(std::is_nothrow_move_constructible_v<T>)
+{
+    T temporary(std::move(*source));
+    source->~T();
+    detail::construct_at(target, std::move(temporary));
+}
+
 #ifdef __cpp_lib_assume_aligned
 using std::assume_aligned;
 #else
